@@ -2,10 +2,12 @@
 
 R6.1 DOWNGRADE          input write => status within the allowed set on every path
 R6.2 STATUS-EXHAUSTIVE  every switch(status) names all five enumerators
+R6.5 SWAP-REMOVE        a row swapped into the current position of a forward loop is re-examined
 Numeric clauses (status/optimum/witness, pivoting, branch and bound) are not decided.
 """
 from pplv import facts as F
 from rules import solver_common as S
+from rules import idioms
 
 ALL = ("UNSATISFIABLE", "SATISFIABLE", "UNBOUNDED", "OPTIMIZED", "PARTIALLY_SATISFIABLE")
 FEAS = ("feasibility", ("UNSATISFIABLE", "PARTIALLY_SATISFIABLE"))
@@ -98,3 +100,6 @@ def run(ctx):
     S.status_switches(ctx, "R6.2", fx, "MIP_Problem", ALL, floor=4)
     r6_3(ctx, fx)
     r6_4(ctx, fx)
+    ctx.rule("R6.5", "swap-remove: in a forward counted loop of MIP_Problem that shrinks its bound and moves the last row into the current position, the index is stepped back on every path before the increment (a tableau row swapped in while erasing the artificials must itself be examined, else its equality is silently dropped in phase 2)")
+    k = idioms.swap_remove(ctx, "R6.5", [f for f in fx.functions if f.clsn == "MIP_Problem" and not f.flag("pattern")], "its artificial variable stays basic and its row is no longer enforced")
+    ctx.floor("R6.5", k, 1, "swap-remove loops in MIP_Problem")
